@@ -205,6 +205,11 @@ def onEpochEnd : AnyEval W α → Int → W → Except PyErr (AnyEval W α)
   | .metric c s, e, w => (c.onEpochEnd s e w).map (.metric c)
   | .observable c s, e, w => (c.onEpochEnd s e w).map (.observable c)
 
+/-- the evaluator's `clear_history()` (metric_evaluator.py:107-111, observable_evaluator.py:158-161) -/
+def clearHistory : AnyEval W α → AnyEval W α
+  | .metric c s => .metric c s.clearHistory
+  | .observable c s => .observable c s.clearHistory
+
 end AnyEval
 
 /-! ### deviations and `on_epoch_end` -/
@@ -323,6 +328,33 @@ def fitLoop (es : EarlyStopping α) (evalFirst : Bool) : FitState W α → List 
 def fitRun (es : EarlyStopping α) (evalFirst : Bool) (s : FitState W α) (cands : List (Int × W)) :
     Except PyErr (FitState W α) :=
   if s.st.stop then .ok s else fitLoop es evalFirst s cands
+
+/-! ### sessions: several consecutive `fit` calls re-using the SAME evaluator and stopper objects
+
+The evaluator keeps its history and the stopper its `last_epoch` from call to call ("train a bit more until converged");
+between two calls the user may call `evaluator.clear_history()` and / or reset `nn_state.stop_training = False` (resume
+after a stop).  A call entered with the flag still set returns immediately (neural_state.py:558-559). -/
+
+/-- one `fit` call of a session: `clear` = `clear_history()` is called before it, `reset` = `stop_training = False` is
+assigned before it, `cands` = its epochs with their world tokens (numbering restarts or continues: any epochs) -/
+structure Segment (W : Type) where
+  clear : Bool
+  reset : Bool
+  cands : List (Int × W)
+
+/-- the consecutive `fit` calls of a session on the same objects; the result of every call, in order -/
+def sessionRun (es : EarlyStopping α) (evalFirst : Bool) :
+    AnyEval W α → StopState → List (Segment W) → Except PyErr (List (FitState W α))
+  | _, _, [] => .ok []
+  | ev, st, seg :: rest =>
+    let ev1 := if seg.clear then ev.clearHistory else ev
+    let st1 : StopState := ⟨if seg.reset then false else st.stop, st.lastEpoch⟩
+    match fitRun es evalFirst ⟨ev1, st1, []⟩ seg.cands with
+    | .error err => .error err
+    | .ok r =>
+      match sessionRun es evalFirst r.ev r.st rest with
+      | .error err => .error err
+      | .ok rs => .ok (r :: rs)
 
 /-! ### several stop sources in ONE fit
 
